@@ -246,6 +246,15 @@ func (p *pump) RunEvent(time.Time) {
 			} else {
 				ok = p.forward(b, inOrder)
 			}
+		case "otherform":
+			// signed with the right key over the right prior MAC - but in the other of the two forms: the full TSIG
+			// variables where the timers alone belong (a later envelope), the timers alone where the variables belong
+			if t, _, has := oracle.FindTSIG(b); has && r.RightSecret != "" {
+				c := oracle.SignTSIG(oracle.StripTSIG(b), r.KeyName, r.Alg, r.RightSecret, prior, !timers, t.Time, t.Fudge)
+				ok = p.forward(c, false)
+			} else {
+				ok = p.forward(b, inOrder)
+			}
 		case "nokey":
 			// signed under a key name the receiver holds no secret for, with the empty key
 			if t, _, has := oracle.FindTSIG(b); has {
